@@ -76,6 +76,8 @@
                           (def b (case rmode
                                    :read (ev/read rd rn)
                                    :chunk (ev/chunk rd rn)
+                                   :nread (net/read rd rn)
+                                   :nchunk (net/chunk rd rn)
                                    :all (ev/read rd :all)))
                           (++ rounds)
                           (if (nil? b) (set eof true) (track t b))
@@ -182,12 +184,18 @@
   (var wres :pending) (var rres :pending) (var sres :pending)
   (def t (new-tracker))
   (def reply @"")
-  (ev/go (fn [] (set rres (try (do (while (def b (ev/read cli 64)) (buffer/push reply b)) :eof) ([e] [:error (string e)])))
-           (ev/give done :r)))
-  (ev/go (fn [] (ev/sleep 0)     # the reader is parked first
-           (set wres (try (do (ev/write cli data) :ok) ([e] [:error (string e)])))
-           (ev/give done :w)))
+  # the two client tasks are started from a frame of their own, so that no dead register of this frame keeps them alive:
+  # while they are parked, the stream is the only path to them
+  ((fn []
+     (ev/go (fn [] (set rres (try (do (while (def b (ev/read cli 64)) (buffer/push reply b)) :eof) ([e] [:error (string e)])))
+              (ev/give done :r)))
+     (ev/go (fn [] (ev/sleep 0)     # the reader is parked first
+              (set wres (try (do (ev/write cli data) :ok) ([e] [:error (string e)])))
+              (ev/give done :w)))
+     nil))
+  (def go (ev/chan 1))
   (ev/go (fn [] (set sres (try (do
+                                 (when (item :gc) (ev/take go))     # the server starts draining after the collection
                                  (var left size)
                                  (while (> left 0)
                                    (def b (ev/read conn (min left 65536)))
@@ -199,6 +207,9 @@
                                  :ok) ([e] [:error (string e)])))
            (ev/give done :s)))
   (var got 0)
+  (when (item :gc)
+    # both client fibers are parked and referenced by nothing but the stream: they must survive collections
+    (ev/sleep 0.01) (gccollect) (gccollect) (ev/give go true))
   (def stuck (try (do (ev/with-deadline 1000 (repeat 3 (ev/take done) (++ got))) false) ([e] true)))
   (protect (ev/close srv)) (protect (ev/close cli)) (protect (ev/close conn))
   [(if stuck [:stuck got] :finished) wres rres sres (string reply) (t :total) (t :bad)])
